@@ -142,7 +142,7 @@ class FSQ(Module):
         half_width = self._levels // 2
 
         if preserve_symmetry:
-            quantized = round_ste(self.symmetry_preserving_bound(z)) / half_width
+            quantized = self.symmetry_preserving_bound(z)
         else:
             quantized = round_ste(self.bound(z)) / half_width
 
@@ -172,10 +172,16 @@ class FSQ(Module):
         return quantized
 
     def _scale_and_shift(self, zhat_normalized):
+        if self.preserve_symmetry:
+            return (zhat_normalized + 1.) / (2. / (self._levels - 1))
+
         half_width = self._levels // 2
         return (zhat_normalized * half_width) + half_width
     
     def _scale_and_shift_inverse(self, zhat):
+        if self.preserve_symmetry:
+            return zhat * (2. / (self._levels - 1)) - 1.
+
         half_width = self._levels // 2
         return (zhat - half_width) / half_width
 
